@@ -263,8 +263,8 @@ Section Proofs.
 End Proofs.
 
 (* ---- refutations (faithful model of the unrepaired behaviours) ---- *)
-Definition witness_dberr : list op := [Parse 0 30 false; CorruptFile; Parse 0 30 false].
-Definition witness_uncaught (e : exn) : list op := [Parse 0 30 false; CorruptEntry 0 (Raises e); Parse 0 30 false].
+Definition witness_dberr : list op := [Parse 0 (30 * DAY) false; CorruptFile; Parse 0 (30 * DAY) false].
+Definition witness_uncaught (e : exn) : list op := [Parse 0 (30 * DAY) false; CorruptEntry 0 (Raises e); Parse 0 (30 * DAY) false].
 
 Lemma third_out sy caught flag a b c :
   transparent sy caught flag init_state [a; b; c] ->
